@@ -60,7 +60,13 @@ RebaseAt(t, lim, sols, x) ==
   IN IF RBad(want) \/ RBad(got) THEN "overflow" ELSE IF want = got THEN "ok" ELSE "differs"
 RebaseHolds(t, lim, sols, Pts) ==
   \A x \in Pts : InRange(lim, x) => RebaseAt(t, lim, sols, x) = "ok"
-(* ---- transcription of solver._solve / rebaseTent ---------------------------------------- *)
+(* ---- transcription of solver._solve / rebaseTent ----------------------------------------
+   Named deviations of the code from the ideal solution, kept as explicit branches:
+     * EPSILON nudges (a tent's peak may not fall on the new default).  On well-formed tents
+       they only touch solutions whose scalar is 0 (lower = axisDef < peak gives gain 0),
+       which rebaseTent then drops; so the contract holds EXACTLY on the whole domain and
+       no tolerance is stated (MC_Tent and the conformance run confirm it);
+     * the "newUpper" case 3 of the code is disabled (`if False`), case 4 is always taken. *)
 Epsilon == <<1, 16384>>
 ReverseNegate(t) == <<RNeg(t[3]), RNeg(t[2]), RNeg(t[1])>>
 LimReverse(lim) == <<RNeg(lim[3]), RNeg(lim[2]), RNeg(lim[1]), lim[5], lim[4]>>
